@@ -87,6 +87,25 @@ def families(tier: str) -> list[dict]:
                                strict=True, replay_cfgs=rcs,
                                save_args=(True,), load_args=(True, False)
                                if g is gens[0] else (True,)))
+    # marathons: long behaviours with several checkpoint / resume cycles
+    # (single process and on a 2-rank world)
+    quick = tier == 'quick'
+    L = 44 if quick else 100
+    mz = dict(base, method='inverse', prediv=False, F=2, I=3, in_hook=True,
+              accum=1, damping='damp_lin', decay='expdecay',
+              fresh_perturb=True)
+    fams.append(reffam.fam(mz, ['Train', 'Step', 'Save', 'Load'], L,
+                           exhaustive=False, num=3 if quick else 40,
+                           spec_depth=5, save_args=(True,),
+                           load_args=(True,)))
+    mw = dict(base, method='eigen', prediv=False, F=1, I=4, in_hook=False,
+              accum=1, model='mlp3')
+    fams.append(reffam.fam(mw, ['Train', 'Step', 'Save', 'Load'], L,
+                           exhaustive=False, num=2 if quick else 24,
+                           spec_depth=5, strict=True,
+                           replay_cfgs=[dict(mw, W=2, k=1),
+                                        dict(mw, W=2, k=2)],
+                           save_args=(True,), load_args=(True,)))
     return fams
 
 
